@@ -302,8 +302,22 @@ func (p Proxy) ServeHTTP(w http.ResponseWriter, r *http.Request) (int, error) {
 		// Several requests may have selected this host while it had a
 		// single free slot (Select only reads the counter), so max_conns
 		// is enforced here, where the request is counted.
-		if n := atomic.AddInt64(&host.Conns, 1); host.MaxConns > 0 && n > host.MaxConns {
-			atomic.AddInt64(&host.Conns, -1)
+		// The slot is reserved with a compare-and-swap, so that the counter
+		// itself never shows more than max_conns (an add that is taken back
+		// when it overshoots would make a request that arrives in between
+		// see a full backend that is not full).
+		reserved := false
+		for {
+			n := atomic.LoadInt64(&host.Conns)
+			if host.MaxConns > 0 && n >= host.MaxConns {
+				break
+			}
+			if atomic.CompareAndSwapInt64(&host.Conns, n, n+1) {
+				reserved = true
+				break
+			}
+		}
+		if !reserved {
 			backendErr = errors.New("upstream host has reached max_conns")
 			if !keepRetrying(backendErr) {
 				break
